@@ -10,6 +10,8 @@
 #include "common.h"
 #include "expr_io.h"
 #include <typeinfo>
+#include <sys/resource.h>
+#include <new>
 using namespace ibex; using namespace vh; using namespace std;
 
 static long emitted = 0;
@@ -74,6 +76,7 @@ static Built build_linalg(Rng& r, bool outer = true) {
 }
 
 int main(int argc, char** argv) {
+  { struct rlimit rl; rl.rlim_cur = rl.rlim_max = (rlim_t)6 << 30; setrlimit(RLIMIT_AS, &rl); }   // a blow-up of the symbolic layer ends with bad_alloc, not with swapping
   string wl = argc > 1 ? argv[1] : "c08";
   uint64_t seed = argc > 2 ? strtoull(argv[2], 0, 10) : 1;
   long n = argc > 3 ? atol(argv[3]) : 200;
@@ -193,6 +196,7 @@ int main(int argc, char** argv) {
           for (int k = 0; k < 3; k++) { Vector p(b.nvar); for (int q = 0; q < b.nvar; q++) p[q] = dyadic(r); EMIT("equivcomp %s %s %d %s => 1\n", b.dag.c_str(), d2.c_str(), i, ptok(p).c_str()); } }
       } else { fprintf(stderr, "unknown workload\n"); return 2; }
     } catch (ExprDiffException& e) { EMIT("diffunsupported x => 0\n"); }
+      catch (std::bad_alloc&) { EMIT("resourcelimit %s bad_alloc %s => 0\n", wl.c_str(), cur.c_str()); }   // (polynomial expansion of simplification levels 2-3: documented blow-up)
       catch (std::exception& e) { EMIT("harnesserror %s %s %s => 0\n", wl.c_str(), typeid(e).name(), cur.c_str()); }
   }
   fprintf(stderr, "emitted %ld\n", emitted);
